@@ -667,6 +667,53 @@ def r06_7(rep: Report) -> None:
                      'stored fragments)', st)
 
 
+def r06_8(rep: Report) -> None:
+    """a static SegmentTimeline lists every stored fragment once: the listing loop of
+    generateSegmentTimeline runs `while covered < END`, adding one stored fragment per iteration and
+    wrapping to the first fragment after the last.  On static paths END must be this track's own
+    duration (self.mediaDuration, the sum of its fragments): a larger bound (the timing reference's
+    duration, when this track is shorter) wraps and lists a fragment number that is not stored, a
+    smaller one drops the tail."""
+    from ..flow import Disjunctive
+    from ..pathcond import PathCond, entails as pc_entails, f_not, show as pc_show, sym_values
+    rid = 'R06.8'
+    tree = rep.repo.tree(REP)
+    cls = need(find_class(tree, 'Representation'), 'Representation')
+    fn = need(find_func(cls, 'generateSegmentTimeline'), 'generateSegmentTimeline')
+    c = f'{REP}::Representation.generateSegmentTimeline'
+    upd, resolve = sym_values(max_len=400, subst_calls=False)
+    live = ('atom', "self._timing.mode == 'live'")
+    seen: list = []
+
+    def on_stmt(st, states):
+        if not isinstance(st, ast.While):
+            return
+        t = st.test
+        if isinstance(t, ast.BoolOp) and t.values:
+            t = t.values[0]
+        if not (isinstance(t, ast.Compare) and len(t.ops) == 1 and isinstance(t.ops[0], ast.Lt)):
+            return
+        if not any(isinstance(x, ast.Attribute) and x.attr == 'duration' for x in ast.walk(st)):
+            return
+        for state in states:
+            if pc_entails(state[0], f_not(live)) is not True:
+                continue
+            seen.append((st, norm(resolve(state, t.comparators[0])), pc_show(state[0])))
+    Flow(Disjunctive(PathCond(subst={'timing': 'self._timing'}, upd=upd), cap=256), on_stmt=on_stmt).run(
+        fn, [PathCond.initial()])
+    if not seen:
+        raise AnalysisError('generateSegmentTimeline: the listing loop is not reached on a static path')
+    bad = [x for x in seen if x[1] != 'self.mediaDuration']
+    if not bad:
+        rep.ok(rid, c, 'static timeline covers this track\'s own duration')
+    else:
+        st, bound, pc = bad[0]
+        rep.fail(rid, c, 'static timeline covers this track\'s own duration',
+                 f'on a static path the listing loop runs until `{bound[:80]}` has been covered, not self.mediaDuration: '
+                 'for a track shorter than that bound the loop wraps and the static manifest lists a fragment '
+                 'that is not stored (one more S entry than num_media_segments; its request is answered 404)', st)
+
+
 def analyse(rep: Report) -> None:
     rep.explanation = (
         'Conventions that the static manifests and the media endpoint must share: the inclusive '
@@ -680,6 +727,7 @@ def analyse(rep: Report) -> None:
     rep.rule('R06.5', 'static addressing: number and file index differ by start_number - 1', floor=2)
     rep.rule('R06.6', 'a static SegmentTimeline lists the stored fragment durations (no live correction)', floor=1)
     rep.rule('R06.7', 'entries of the generated segment lists are distinct objects, not modified once listed', floor=2)
+    rep.rule('R06.8', 'a static SegmentTimeline covers exactly the track\'s own duration', floor=1)
     rep.rule('R06.4', 'indexer clock: start = previous end or tfdt, end = start + sample durations', floor=6)
     r06_1(rep)
     r06_2(rep)
@@ -688,3 +736,4 @@ def analyse(rep: Report) -> None:
     r06_5(rep)
     r06_6(rep)
     r06_7(rep)
+    r06_8(rep)
